@@ -81,7 +81,7 @@ fn is_small_dyadic(s: &str) -> bool {
     }
 }
 
-fn same_tree(real: &R, model: &R, exact: bool) -> Result<(), String> {
+fn same_tree(real: &R, model: &R, exact: bool, scale: f64) -> Result<(), String> {
     if real.name != model.name {
         return Err(format!("name {:?} vs {:?}", real.name, model.name));
     }
@@ -91,7 +91,9 @@ fn same_tree(real: &R, model: &R, exact: bool) -> Result<(), String> {
     match (&real.len, &model.len) {
         (None, None) => {}
         (Some((a, _)), Some((b, txt))) => {
-            let ok = if exact && is_small_dyadic(txt) { a == b } else { (a - b).abs() <= 1e-9 * a.abs().max(b.abs()).max(1.0) };
+            // the model computes on the unscaled integers; the real matrix was multiplied by a power of two (exact)
+            let b = &(*b * scale);
+            let ok = if exact && is_small_dyadic(txt) { a == b } else { (a - b).abs() <= 1e-9 * a.abs().max(b.abs()).max(scale) };
             if !ok {
                 return Err(format!("length {a} vs {txt}"));
             }
@@ -99,7 +101,7 @@ fn same_tree(real: &R, model: &R, exact: bool) -> Result<(), String> {
         (a, b) => return Err(format!("length presence {a:?} vs {b:?}")),
     }
     for (x, y) in real.kids.iter().zip(model.kids.iter()) {
-        same_tree(x, y, exact)?;
+        same_tree(x, y, exact, scale)?;
     }
     Ok(())
 }
@@ -198,16 +200,38 @@ fn pair_dist(r: &R, out: &mut std::collections::BTreeMap<(String, String), f64>)
     per.into_iter().flatten().collect()
 }
 
+thread_local! { static SCALE: std::cell::Cell<f64> = const { std::cell::Cell::new(1.0) }; }
+
 struct Q {
     reqs: Vec<String>,
     real: Vec<Result<R, String>>,
+    scale: Vec<f64>,
 }
 
 fn one_matrix(names: &[String], cells: &[f64], ultrametric: bool, q: &mut Q, rep: &mut Report, label: &str) {
+    one_matrix_scaled(names, cells, ultrametric, q, rep, label, 0)
+}
+
+/// `cells` are integers; the crate sees them multiplied by 2^scale_exp (exact), the model and the definitional
+/// clustering see the integers, and every length / height is compared after the same exact scaling: magnitudes far from 1
+/// (1e-24, 1e+60) must not change a single decision
+fn one_matrix_scaled(names: &[String], cells: &[f64], ultrametric: bool, q: &mut Q, rep: &mut Report, label: &str, scale_exp: i32) {
+    let scale = 2f64.powi(scale_exp);
+    let int_cells = cells;
+    let scaled: Vec<f64> = cells.iter().map(|v| v * scale).collect();
+    let cells = &scaled[..];
+    let dup_names = { let mut u = names.to_vec(); u.sort(); u.dedup(); u.len() != names.len() };
     let n = names.len();
     let req = format!("up.run\t{}\t{}", if names.is_empty() { "_".to_string() } else { names.iter().map(|x| hex(x)).collect::<Vec<_>>().join(",") },
-        if cells.is_empty() { "_".to_string() } else { cells.iter().map(|v| format!("{}", *v as i64)).collect::<Vec<_>>().join(" ") });
-    rep.case(&req, n >= 3);
+        if int_cells.is_empty() { "_".to_string() } else { int_cells.iter().map(|v| format!("{}", *v as i64)).collect::<Vec<_>>().join(" ") });
+    let req_ctx = if scale_exp == 0 { req.clone() } else { format!("{req}\t(real matrix = these integers x 2^{scale_exp})") };
+    rep.case(&req_ctx, n >= 3);
+    if scale_exp != 0 {
+        rep.count(&format!("scaled_by_2^{scale_exp}"));
+    }
+    if dup_names {
+        rep.count("repeated_taxon_labels");
+    }
     rep.count(&format!("matrices:{label}"));
     let m = DistanceMatrix::new(names.to_vec(), cells);
     let r = guarded(AssertUnwindSafe(|| m.upgma()));
@@ -235,6 +259,7 @@ fn one_matrix(names: &[String], cells: &[f64], ultrametric: bool, q: &mut Q, rep
     if let Ok(t) = &real {
         // ---- oracles on the real result ----
         let mut bad = None;
+        SCALE.with(|s| s.set(scale));
         fn walk(r: &R, bad: &mut Option<&'static str>) {
             if !r.kids.is_empty() && r.kids.len() != 2 {
                 *bad = Some("not-binary");
@@ -242,7 +267,7 @@ fn one_matrix(names: &[String], cells: &[f64], ultrametric: bool, q: &mut Q, rep
             for k in r.kids.iter() {
                 match &k.len {
                     None => *bad = Some("missing-length"),
-                    Some((l, _)) if *l < -1e-9 => *bad = Some("negative-branch-length"),
+                    Some((l, _)) if *l < 0.0 && *l < -1e-9 * SCALE.with(|s| s.get()) => *bad = Some("negative-branch-length"),
                     _ => {}
                 }
                 walk(k, bad);
@@ -262,18 +287,22 @@ fn one_matrix(names: &[String], cells: &[f64], ultrametric: bool, q: &mut Q, rep
             rep.oracle("shape", "leaves-are-not-the-taxa", &req, &format!("{got:?}"));
         }
         let h = leaves.iter().map(|x| x.1).fold(0.0, f64::max);
-        if leaves.iter().any(|x| (x.1 - h).abs() > 1e-9 * h.max(1.0)) {
+        if leaves.iter().any(|x| (x.1 - h).abs() > 1e-9 * h.max(scale)) {
             rep.oracle("ultrametric", "leaves-not-equidistant-from-root", &req, &format!("{leaves:?}"));
         }
         let idx = |a: usize, b: usize| -> f64 { if a == b { 0.0 } else { let (i, j) = (a.max(b), a.min(b)); cells[i * (i - 1) / 2 + j] } };
-        if let Some(expect) = naive_upgma(names, &idx) {
+        let int_idx = |a: usize, b: usize| -> f64 { if a == b { 0.0 } else { let (i, j) = (a.max(b), a.min(b)); int_cells[i * (i - 1) / 2 + j] } };
+        if dup_names {
+            // clusters and pair distances are keyed by name below: not applicable with repeated labels (the model tie is positional)
+            rep.count("name_keyed_oracles_skipped_repeated_labels");
+        } else if let Some(expect) = naive_upgma(names, &int_idx).map(|v| v.into_iter().map(|(s, h)| (s, h * scale)).collect::<Vec<_>>()) {
             let mut cs = vec![];
             clusters(t, &mut cs);
             // clusters are compared exactly, merge heights within a relative tolerance (the two computations round
             // differently; comparing rounded values would flip at a rounding boundary)
             let norm = |v: &Vec<(BTreeSet<String>, f64)>| -> Vec<(BTreeSet<String>, f64)> { let mut w: Vec<_> = v.clone(); w.sort_by(|a, b| a.0.cmp(&b.0)); w };
             let (g, w) = (norm(&cs), norm(&expect));
-            let same = g.len() == w.len() && g.iter().zip(w.iter()).all(|(x, y)| x.0 == y.0 && (x.1 - y.1).abs() <= 1e-9 * x.1.abs().max(y.1.abs()).max(1.0));
+            let same = g.len() == w.len() && g.iter().zip(w.iter()).all(|(x, y)| x.0 == y.0 && (x.1 - y.1).abs() <= 1e-9 * x.1.abs().max(y.1.abs()).max(scale));
             if !same {
                 rep.oracle("average-linkage", "clusters-or-heights-differ", &req, &format!("{g:?} expected {w:?}"));
             }
@@ -281,14 +310,14 @@ fn one_matrix(names: &[String], cells: &[f64], ultrametric: bool, q: &mut Q, rep
         } else {
             rep.count("naive_clustering_skipped_ambiguous");
         }
-        if ultrametric {
+        if ultrametric && !dup_names {
             let mut pd = std::collections::BTreeMap::new();
             pair_dist(t, &mut pd);
             for a in 0..n {
                 for b in 0..a {
                     let key = if names[a] <= names[b] { (names[a].clone(), names[b].clone()) } else { (names[b].clone(), names[a].clone()) };
                     let got = pd.get(&key).cloned().unwrap_or(f64::NAN);
-                    if (got - idx(a, b)).abs() > 1e-9 * idx(a, b).max(1.0) {
+                    if (got - idx(a, b)).abs() > 1e-9 * idx(a, b).max(scale) {
                         rep.oracle("ultrametric", "tree-does-not-reproduce-the-matrix", &req, &format!("{key:?}: {got} vs {}", idx(a, b)));
                     }
                 }
@@ -298,6 +327,7 @@ fn one_matrix(names: &[String], cells: &[f64], ultrametric: bool, q: &mut Q, rep
     }
     q.reqs.push(req);
     q.real.push(real);
+    q.scale.push(scale);
 }
 
 fn flush(q: &mut Q, driver: &str, rep: &mut Report) {
@@ -329,7 +359,7 @@ fn flush(q: &mut Q, driver: &str, rep: &mut Report) {
                         match parse_model(tree) {
                             None => rep.mismatch("c15.upgma", "undecodable", &q.reqs[i], "", m),
                             Some(mt) => {
-                                if let Err(e) = same_tree(t, &mt, exact) {
+                                if let Err(e) = same_tree(t, &mt, exact, q.scale[i]) {
                                     rep.mismatch("c15.upgma", "up.run:differs", &q.reqs[i], &format!("{e}; real {t:?}"), m);
                                 }
                             }
@@ -348,6 +378,7 @@ fn flush(q: &mut Q, driver: &str, rep: &mut Report) {
     }
     q.reqs.clear();
     q.real.clear();
+    q.scale.clear();
 }
 
 /// ultrametric matrix from a random clock-like tree with integer node heights
@@ -404,7 +435,7 @@ pub fn run(thorough: bool, seed: u64, driver: &str, rep: &mut Report) {
         n_workers(),
         "C15",
         |job, rep| {
-            let mut q = Q { reqs: vec![], real: vec![] };
+            let mut q = Q { reqs: vec![], real: vec![], scale: vec![] };
             match job {
                 Job::Exhaustive { n, maxv } => {
                     let cells_n = tri(n);
@@ -423,7 +454,22 @@ pub fn run(thorough: bool, seed: u64, driver: &str, rep: &mut Report) {
                     let mut rng = Rng::new(seed);
                     for i in 0..count {
                         let n = match i % 12 { 0 => 2, 1 => 3, _ => rng.range(3, if thorough { 60 } else { 30 }) };
-                        let names = taxa(n, &mut rng);
+                        let mut names = taxa(n, &mut rng);
+                        // a fifth of the matrices carry repeated (or empty) taxon labels: clustering is positional
+                        if i % 5 == 4 {
+                            for _ in 0..rng.range(1, 3) {
+                                let (a, b) = (rng.below(n), rng.below(n));
+                                names[a] = if rng.chance(1, 4) { String::new() } else { names[b].clone() };
+                            }
+                        }
+                        // a quarter are presented to the crate at a magnitude far from 1 (exact power-of-two scaling)
+                        let scale_exp = if i % 4 == 3 { *rng.pick(&[-80, -200, 64, 200, -30]) } else { 0 };
+                        if scale_exp != 0 {
+                            let ultra = i % 3 == 0;
+                            let cells: Vec<f64> = if ultra { ultrametric(&mut rng, n) } else if i % 3 == 1 { (0..tri(n)).map(|_| rng.range(1, 1_000_000) as f64).collect() } else { (0..tri(n)).map(|_| rng.range(0, 6) as f64).collect() };
+                            one_matrix_scaled(&names, &cells, ultra, &mut q, rep, "scaled", scale_exp);
+                            continue;
+                        }
                         match i % 3 {
                             0 => {
                                 let cells = ultrametric(&mut rng, n);
